@@ -28,14 +28,18 @@ class Slotted:
         self.a = a
         self.b = b
 
+    def _key(self):
+        # slots may be unset when the instance was created without __init__ (INST / NEWOBJ)
+        return (getattr(self, "a", "<unset>"), getattr(self, "b", "<unset>"))
+
     def __eq__(self, o):
-        return type(o) is type(self) and (o.a, o.b) == (self.a, self.b)
+        return type(o) is type(self) and o._key() == self._key()
 
     def __hash__(self):
         return 7
 
     def __repr__(self):
-        return f"Slotted({self.a!r}, {self.b!r})"
+        return f"Slotted{self._key()!r}"
 
 
 def make(*args):
